@@ -46,7 +46,14 @@ def analyse(mod, run, label, fallbacks=CONFIRMED_FALLBACKS, overrides=FAIL_OVERR
             # ---- R2 ----
             ex = fa.failure_exits(k); fallback = False
             if fa.null_edges.get(k):
-                bad = [(t, v) for (t, v, p) in ex if v is None or not eng.is_const(v, fv)]
+                def reports_failure(v):
+                    if v is None: return False
+                    if eng.is_const(v, fv): return True
+                    # `p = malloc(n); if (p) fill(p); return p;` - on the failure edge the returned pointer is the NULL result itself
+                    vv = v
+                    while vv["k"] == "inst" and fn.imap[vv["v"]].op == "bitcast": vv = fn.imap[vv["v"]].ops[0]
+                    return (fa.is_alias(s, v) or fa.is_alias(s, vv)) and fv == 0 and fn.d["ret"].endswith("*")
+                bad = [(t, v) for (t, v, p) in ex if not reports_failure(v)]
                 key = (fn.name, s.name())
                 if bad and key in fallbacks:
                     run.ok("R2-failure-reported", {"fn": fn.name, "site": s.name(), "at": where, "confirmed_fallback": fallbacks[key]})
@@ -106,7 +113,19 @@ def analyse(mod, run, label, fallbacks=CONFIRMED_FALLBACKS, overrides=FAIL_OVERR
             if fate == "consumed":
                 run.ok("R5-status-consumed", {"fn": fn.name, "callee": c, "at": loc(i)})
             elif fate == "discarded":
-                run.fail(Finding("R5-result-discarded", fn.name, c, "call", "result of fallible %s is discarded at %s: an allocation failure inside it is reported as success" % (c, loc(i)), loc=loc(i)))
+                det = {}
+                if fn.internal:
+                    # the API functions through which this file-local helper is reached
+                    seen_c = set(); work_c = [fn.name]; api = set()
+                    while work_c:
+                        nm = work_c.pop()
+                        for g2 in mod.defined():
+                            if g2.name in seen_c or not any(True for _ in g2.calls(nm)): continue
+                            seen_c.add(g2.name)
+                            if g2.internal: work_c.append(g2.name)
+                            else: api.add(g2.name)
+                    det = {"callers": sorted(api)}
+                run.fail(Finding("R5-result-discarded", fn.name, c, "call", "result of fallible %s is discarded at %s: an allocation failure inside it is reported as success" % (c, loc(i)), loc=loc(i), detail=det))
             else:
                 run.fail(Finding("R5-result-masked", fn.name, c, "call", "result of fallible %s (at %s) only flows into arithmetic and is never compared with its failure value: the failure is masked" % (c, loc(i)), loc=loc(i)))
         # ---- R8 ----
